@@ -130,6 +130,13 @@ CLAIMED = {
             "inverts once between the passes; (R5) add_in_place / mul_acc assert equal lengths before zip. Thorough tier repeats the rules on the concurrent build. "
             "The element-wise values (powers, inverses, sums) and the transposed order itself are numerical and not decided.",
             "rustc MIR of both feature configurations; field arithmetic exact (C10); rayon batches disjoint and ordered (C06)", "DESIGN.md section 4, C14"),
+    "C22": ("provenance of prepare_assertions' result (sorted container), field-pair analysis of `Ord for Assertion`, dominance of the overlap loop over set insertion, argument wiring of group_constraints",
+            "Decides only the last sentence of the property (coefficient assignment independent of the order in which the AIR lists its assertions) through the four links it needs: "
+            "(R1) prepare_assertions returns its inputs in the order of a sorted set (or sorts before returning); (R2) Ord for Assertion compares stride, first_step and column, field against "
+            "the same field, with no constant result; (R3) every insertion into the set lies behind a diverging overlaps_with loop over the set's elements (column filter only), so no "
+            "assertion comparing Equal to an earlier one is dropped silently; (R4) BoundaryConstraints::new passes the prepared vectors and the coefficient halves split at the main count, "
+            "zipped by position. That the constraints vanish exactly on the asserted cells, and the divisor degrees, are numerical and not decided.",
+            "rustc MIR; BTreeSet iterates in Ord order; overlaps_with is true for equal (column, first_step, stride) (C21, not decided)", "DESIGN.md section 4, C22"),
     "C16": ("abstract interpretation of the S-box code over monomial exponents (exponents.py) + call-order / constant rules",
             "Decides three structural clauses of the Rescue hashers (Rp62_248, Rp64_256, RpJive64_256): (R1) the exponent to which apply_sbox raises every state element, "
             "computed by interpreting its MIR with each element abstracted to its exponent (square -> 2e, product -> sum, helper calls and element-wise iterator "
@@ -162,7 +169,6 @@ NOT_APPLICABLE = {
     "C13": "Polynomial helper results are numerical; no invariant of the control-flow graph implies them.",
     "C18": "Root/opening consistency and parallel = sequential build are numerical; the rejection/no-panic part is C19.",
     "C21": "Assertion step sets / overlap detection are arithmetic case analysis over run-time integers; deciding exactness is enumeration, i.e. execution.",
-    "C22": "Vanishing of boundary constraints on asserted cells is numerical (interpolation, divisor evaluation).",
     "C23": "Divisor degrees, evaluation degrees and periodic polynomials are formulas over run-time integers/field values.",
     "C29": "Trace validation agreeing with an independent checker requires evaluating constraints on traces.",
 }
